@@ -78,9 +78,13 @@ func (g *mixGen) ethTx() pb.Transaction {
 	case x < 86:
 		g.note("eth-deploy-reverting")
 		return w.Eth(sender, 0, 200000, price, big.NewInt(0), nil, []byte{0x60, 0x00, 0x60, 0x00, 0xfd})
-	case x < 92:
+	case x < 89:
 		g.note("eth-deploy-out-of-gas")
 		return w.Eth(sender, 0, 53100, price, big.NewInt(0), nil, deploy)
+	case x < 92:
+		// a contract without code: the account has a code hash and no code bytes (later calls read its code)
+		g.note("eth-deploy-empty-init-code")
+		return w.Eth(sender, 0, 200000, price, big.NewInt(0), nil, nil)
 	default:
 		to := other
 		if len(g.ethContracts) > 0 {
